@@ -353,8 +353,17 @@ fn channel_id(c: &mut Ctx, m: &'static Merchant, m2: &'static Merchant) {
             let mut cr = [0u8; 32];
             rng.fill_bytes(&mut mr);
             rng.fill_bytes(&mut cr);
-            let mut mi = vec![0u8; (rng.next_u32() % 40) as usize];
-            let mut ci = vec![0u8; (rng.next_u32() % 40) as usize];
+            // mostly short, every sixth round long (lengths around the powers of two up to 8 KiB)
+            let len = |rng: &mut rand_chacha::ChaCha20Rng| -> usize {
+                if k % 6 != 5 {
+                    (rng.next_u32() % 40) as usize
+                } else {
+                    let base = [64usize, 72, 128, 136, 255, 256, 257, 512, 1024, 4096, 8192][(rng.next_u32() % 11) as usize];
+                    base + (rng.next_u32() % 3) as usize
+                }
+            };
+            let mut mi = vec![0u8; len(&mut rng)];
+            let mut ci = vec![0u8; len(&mut rng)];
             rng.fill_bytes(&mut mi);
             rng.fill_bytes(&mut ci);
             let mk = |mr: &[u8; 32], cr: &[u8; 32], pk: &zk::PublicKey, mi: &[u8], ci: &[u8]| -> Option<[u8; 32]> {
@@ -378,6 +387,10 @@ fn channel_id(c: &mut Ctx, m: &'static Merchant, m2: &'static Merchant) {
             if mi2.is_empty() { mi2.push(0) } else { let l = mi2.len(); mi2[(rng.next_u32() as usize) % l] ^= 1 }
             let mut ci2 = ci.clone();
             if ci2.is_empty() { ci2.push(0) } else { let l = ci2.len(); ci2[(rng.next_u32() as usize) % l] ^= 1 }
+            let mut mi4 = mi.clone();
+            if let Some(x) = mi4.last_mut() { *x ^= 0x80 } else { mi4.push(1) }
+            let mut ci4 = ci.clone();
+            if let Some(x) = ci4.last_mut() { *x ^= 0x80 } else { ci4.push(1) }
             let mut mi3 = mi.clone();
             mi3.push(7);
             let mut ci3 = ci.clone();
@@ -388,6 +401,8 @@ fn channel_id(c: &mut Ctx, m: &'static Merchant, m2: &'static Merchant) {
                 ("public-key", mk(&mr, &cr, m2.ccfg.merchant_public_key(), &mi, &ci)),
                 ("merchant-account-info-byte", mk(&mr, &cr, pk, &mi2, &ci)),
                 ("customer-account-info-byte", mk(&mr, &cr, pk, &mi, &ci2)),
+                ("merchant-account-info-last-byte", mk(&mr, &cr, pk, &mi4, &ci)),
+                ("customer-account-info-last-byte", mk(&mr, &cr, pk, &mi, &ci4)),
                 ("merchant-account-info-longer", mk(&mr, &cr, pk, &mi3, &ci)),
                 ("customer-account-info-longer", mk(&mr, &cr, pk, &mi, &ci3)),
             ];
@@ -478,6 +493,44 @@ fn forged_closing_signature(c: &mut Ctx, m: &'static Merchant) {
     }
 }
 
+/// The pay-side counterpart: the closing signature the customer already holds is spent as a pay token
+/// under a nonce of the customer's choosing (the signed slot holds the close tag). The C02 forger's
+/// strategies, judged here.
+fn closing_signature_spent_as_pay_token(c: &mut Ctx, m: &'static Merchant, m2: &'static Merchant) {
+    use crate::props::c02;
+    for k in 0..c.tier.pick(2usize, 8) {
+        let name = format!("forger/closing-signature-as-pay-token/{}", k);
+        c.case(&name, |c| {
+            let mut rng = c.rng(&name);
+            let template = match c02::pay_template(m, c.seed) {
+                Ok(t) => t,
+                Err(e) => return c.inconclusive(&e),
+            };
+            let hist: Vec<i64> = if k % 2 == 0 { vec![] } else { vec![3] };
+            let b = match c02::make_base(m, &mut rng, 300 + k as u64, 20, &hist, &template) {
+                Ok(b) => b,
+                Err(e) => return c.inconclusive(&e),
+            };
+            if b.close_sig.is_none() {
+                return c.inconclusive("C18: Ready layout no longer shows the closing signature");
+            }
+            let j = c02::PayJudge { b: &b, context: b"c18-forger".to_vec(), prop: "C18", accepted_nonces: Default::default() };
+            let amt = 4i64;
+            let tp = c02::true_plan(&b, &mut rng, amt);
+            let pr = crate::shadow::PayProver::commit(&mut rng, m, &tp.w);
+            let Some((_, c0)) = j.submit(c, &mut rng, "draft", &pr, None, &Scalar::zero(), &tp, &tp.nonce_pub, amt) else { return };
+            match j.submit(c, &mut rng, "control/true-statement", &pr, Some(&pr.responses(&c0)), &c0, &tp, &tp.nonce_pub, amt) {
+                Some((true, _)) => c.count("pay_forger_positive_controls", 1),
+                _ => return c.inconclusive("C18: pay forger positive control rejected"),
+            }
+            for p in c02::false_plans(&b, &mut rng, amt, m2).into_iter().filter(|p| p.name.starts_with("closing-signature-as-pay-token")) {
+                c02::run_plan(c, &j, &mut rng, &p, &format!("forger/{}/{}", p.name, k));
+                c.count("pay_forger_plans", 1);
+            }
+        });
+    }
+}
+
 pub fn run(c: &mut Ctx) {
     c.note("rule", json!("nonce generation under RNG streams that sample the close tag (32 tag bytes || 32 zero bytes) at every 64-byte draw of test_new_nonce / Requested::new (1-4 times in a row) and of Ready::start (quick: first draws and a spread; thorough: all), with the draw log proving the rejection path was taken; every nonce atom of every state of honest histories; pay token re-labelled as closing signature and closing signature re-labelled as pay token on every Ready state; channel id: identical inputs and exactly-one-input changes. Distinct = distinct (call, draw index, repetitions) injections consumed, distinct states and channel-id input sets."));
     let m = match fixtures::merchant(c.seed, "m0") {
@@ -494,4 +547,5 @@ pub fn run(c: &mut Ctx) {
     histories(c, m);
     channel_id(c, m, m2);
     forged_closing_signature(c, m);
+    closing_signature_spent_as_pay_token(c, m, m2);
 }
